@@ -11,17 +11,17 @@ PROP = dict(
     level_note="Trusted: Go toolchain (time.Date normalisation), rapid, the 60-line interval parser in gt_timekit_test.go. Open-ended ranges (missing from or to) depend "
                "on the wall clock and are excluded. Ranges not aligned to the finest unit are outside the property statement.",
     rule="window: (quantum, start, length) triples, start aligned to the finest unit (H: hourly 2019-11..2021-03, quick tier +-36h around each of the 15 month "
-         "boundaries; D: daily; M: 2018-2022; Y: 2014-2025), length 0..40h/70d/30mo/4y; long: rapid (quantum, start, end) with years 2015-2025 biased to month ends/leap days; "
+         "boundaries; D: daily; M: 2018-2022; Y: 2014-2025), length 0..40h/70d/30mo/4y; long: rapid (quantum, start, end) with years 2015-2025 (2018-2022 / 2019-2021 when the coarsest unit is D / H) biased to month ends/leap days; "
          "tov: (hour, unit) pairs; minmax: (quantum, shuffled view list); api: (quantum, noStandardView, timestamped bit list, query ranges). distinct = hash of that input. "
          "non-trivial = the range crosses a month end, year end or Feb 29 or needs >= 3 view granularities; tov: hour >= 12 or a month-end/Feb/Dec date; "
          "minmax: >= 4 views incl. 'standard'; api: bits in >= 2 views and a query range cutting through the stored timestamps.",
     assumptions=["view names are decoded by the harness's own digit parser (not time.Parse layouts)",
                  "ranges are aligned to the quantum's finest unit (property statement); from and to are both explicit",
-                 "API level: single node, timestamps 2018-2022 at whole hours"],
+                 "API level: single node, timestamps 2017-2023 at whole minutes"],
     tags=["gt"],
     units=[
         U("window", ".", "^TestVerifC18_RangeWindow$", 0, 0, sq=4, sth=12, rapid=False),
-        U("long", ".", "^TestVerifC18_LongRanges$", 20000, 600000, sq=2, sth=6),
+        U("long", ".", "^TestVerifC18_LongRanges$", 4000, 200000, sq=2, sth=6),
         U("tov", ".", "^TestVerifC18_TimeOfView$", 0, 0, sq=1, sth=1, rapid=False),
         U("minmax", ".", "^TestVerifC18_MinMaxViews$", 6000, 200000, sq=1, sth=4),
         U("api", "./server", "^(TestVerifC18_API|TestVerifWitness_(D21|DT2)_API)$", 240, 6000, sq=4, sth=8),
